@@ -1,7 +1,7 @@
 (* Dispatch table: entry name -> model entry point.  The harness names the entry on every
    case line; the same table is used by the extracted driver and by the kernel cross-check. *)
 Require Import Gengo.Base.Str Gengo.Base.Sexp.
-Require Gengo.Model.Tags Gengo.Model.JsonTag Gengo.Model.Tracker Gengo.Model.Namer Gengo.Model.Order Gengo.Model.ImportBoss.
+Require Gengo.Model.Tags Gengo.Model.JsonTag Gengo.Model.Tracker Gengo.Model.Namer Gengo.Model.Order Gengo.Model.ImportBoss Gengo.Model.Exec.
 
 Definition entries : list (string * (sexp -> option sexp)) := [
   ("C08.old", Tags.run_old);
@@ -25,7 +25,12 @@ Definition entries : list (string * (sexp -> option sexp)) := [
   ("C03.ordertypes#pcheck", Order.run_pcheck_order_types);
   ("C18.verify", ImportBoss.run_verify);
   ("C18.closure", ImportBoss.run_closure);
-  ("C18.allimports", ImportBoss.run_allimports)
+  ("C18.allimports", ImportBoss.run_allimports);
+  ("C04.exec", Exec.run_exec);
+  ("C13.exec", Exec.run_exec);
+  ("C13.tracker", Exec.run_tracker);
+  ("C13.body", Exec.run_body);
+  ("C13.assemble", Exec.run_assemble)
 ]%string.
 
 Fixpoint find_entry (name : str) (l : list (string * (sexp -> option sexp))) : option (sexp -> option sexp) :=
